@@ -36,7 +36,7 @@ def prog_path(name):
 
 # concrete refused inputs standing for the model's class "BAD": bytes the pattern never accepts, and inputs whose first
 # characters look acceptable but that contain a line feed (the pattern has to hold for the WHOLE input)
-BAD_INPUTS = ['\x00', '1\n', ' 1', 'a\nb', '0\r\n', '*']
+BAD_INPUTS = ['hex:00', 'hex:310a', ' 1', 'hex:610a62', 'hex:300d0a', '*']
 
 
 def to_history(mbt, tail=True):
@@ -125,7 +125,7 @@ class Family:
     # ---- C for random programs
     def random(self, nprog, nsess, maxreq, mode='L'):
         tr = os.path.join(self.d, 'random_%s.ndjson' % mode)
-        p = core.run_harness(['vise-random', tr, str(nprog), str(nsess), str(maxreq), mode])
+        p = core.run_harness(['vise-random', tr, str(nprog), str(nsess), str(maxreq), mode], env=getattr(self, 'random_env', None))
         summ = harness_summary(p)
         self.out.cov['traces_validated_against_impl'] += summ['sessions']
         progs, reqs = {}, {}
@@ -251,6 +251,8 @@ class Family:
                     self.out.sample(dict(kind='recorded run-loop iteration', event=slim(ev)))
             elif '"ev":"req"' in line[:40]:
                 ev = json.loads(line)
+                if ev['mode'] != 'L' and (ev['post2']['c'].get('badutf') or ev['post']['c'].get('badutf')):
+                    ctx.setdefault('badutf', {}).setdefault(ev['sid'], []).append(ev['req'])
                 ctx['req'][(ev['sid'], ev['req'])] = dict(panic=ev['panic'], fpanic=ev['fpanic'], err=ev['err'], preterm=6 in ev['pre']['flags'])
                 self.pairs.add(('req', ev['mode'], ev['incls'], ev['cont'], ev['err'], ev['outlen'] > 0))
                 if n % 50 == 7:
@@ -277,8 +279,8 @@ class Family:
 
 
 def dec(s):
-    if s.startswith('hex:'):
-        return bytes.fromhex(s[4:]).decode('latin-1')
+    """inputs stay in the recorder's injective form ("hex:..." for anything outside printable ASCII): JSON strings cannot carry raw
+    bytes, the harness decodes the form again when it reads a history"""
     return s
 
 
@@ -293,6 +295,11 @@ def known_matcher(pid):
                 return ks['croak-drops-scopes']
             if ev.get('ev') == 'req' and key in ctx['croak']:
                 return ks['croak-drops-scopes']
+        # a cached value that is not valid UTF-8 (logged by the recorder) makes the stored session undecodable: the request that
+        # stores it cannot be resumed, and from the next request on the session is a silently restarted one
+        if inv in ('C08_Resumable', 'C08_ReqAccount', 'C08_ReqLevels'):
+            if 'non-utf8-value' in ks and any(r <= ev.get('req', -1) for r in ctx.get('badutf', {}).get(ev.get('sid'), [])):
+                return ks['non-utf8-value']
         if inv in ('C08_NoPanic', 'C08_ReqNoPanic') and 'maxlevel-panic' in ks:
             if ctx['req'].get(key, {}).get('panic') == 'maxlevel':
                 return ks['maxlevel-panic']
